@@ -179,6 +179,138 @@ func leanRanges(r [][2]int) string {
 	return "[" + strings.Join(p, ", ") + "]"
 }
 
+// control skeleton of internalRoute: the for loop (header), and inside it — in program order, with the
+// enclosing if / select-case structure — every statement that assigns the loop variable or retryErr,
+// touches c.rpcClients, obtains the client, issues the call, continues, breaks or returns; then the
+// statements of the same kinds after the loop.  Error values are abbreviated to `err`.
+func routeSkeleton(fd *ast.FuncDecl) []string {
+	var loop *ast.ForStmt
+	loopIdx := -1
+	for i, st := range fd.Body.List {
+		if f, ok := st.(*ast.ForStmt); ok {
+			if loop != nil {
+				die("internalRoute: more than one top-level loop")
+			}
+			loop, loopIdx = f, i
+		}
+	}
+	if loop == nil || loop.Init == nil || loop.Cond == nil || loop.Post == nil {
+		die("internalRoute: retry loop `for i := …; …; …` not found")
+	}
+	ia, ok := loop.Init.(*ast.AssignStmt)
+	if !ok || len(ia.Lhs) != 1 {
+		die("internalRoute: unexpected loop init %s", show(loop.Init))
+	}
+	iv := show(ia.Lhs[0])
+	val := func(e ast.Expr) string {
+		s := show(e)
+		if s == "nil" || s == "retryErr" {
+			return s
+		}
+		return "err"
+	}
+	var out []string
+	var walk func(list []ast.Stmt)
+	interesting := func(n ast.Node) bool {
+		found := false
+		ast.Inspect(n, func(x ast.Node) bool {
+			switch s := x.(type) {
+			case *ast.BranchStmt, *ast.ReturnStmt:
+				found = true
+			case *ast.IncDecStmt:
+				if show(s.X) == iv {
+					found = true
+				}
+			case *ast.AssignStmt:
+				for _, l := range s.Lhs {
+					if n := show(l); n == iv || n == "retryErr" {
+						found = true
+					}
+				}
+			case *ast.CallExpr:
+				if strings.Contains(show(s), "rpcClients") {
+					found = true
+				}
+			}
+			return !found
+		})
+		return found
+	}
+	walk = func(list []ast.Stmt) {
+		for _, st := range list {
+			switch s := st.(type) {
+			case *ast.IfStmt:
+				if !interesting(s) {
+					continue
+				}
+				out = append(out, "if "+show(s.Cond)+" {")
+				walk(s.Body.List)
+				if s.Else != nil {
+					out = append(out, "} else {")
+					switch e := s.Else.(type) {
+					case *ast.BlockStmt:
+						walk(e.List)
+					default:
+						walk([]ast.Stmt{e})
+					}
+				}
+				out = append(out, "}")
+			case *ast.SelectStmt:
+				for _, cc := range s.Body.List {
+					c := cc.(*ast.CommClause)
+					h := "default"
+					if c.Comm != nil {
+						h = "case " + show(c.Comm)
+					}
+					out = append(out, h+" {")
+					walk(c.Body)
+					out = append(out, "}")
+				}
+			case *ast.BlockStmt:
+				walk(s.List)
+			case *ast.ForStmt, *ast.RangeStmt, *ast.SwitchStmt, *ast.TypeSwitchStmt, *ast.GoStmt, *ast.LabeledStmt:
+				if interesting(s) {
+					out = append(out, "?"+show(s))
+				}
+			case *ast.BranchStmt:
+				out = append(out, s.Tok.String())
+			case *ast.ReturnStmt:
+				r := "return"
+				for _, e := range s.Results {
+					r += " " + val(e)
+				}
+				out = append(out, r)
+			case *ast.IncDecStmt:
+				if show(s.X) == iv {
+					out = append(out, show(s))
+				}
+			case *ast.AssignStmt:
+				rhs := show(s)
+				switch {
+				case len(s.Lhs) == 1 && show(s.Lhs[0]) == "retryErr":
+					out = append(out, "retryErr "+s.Tok.String()+" "+val(s.Rhs[0]))
+				case len(s.Lhs) == 1 && show(s.Lhs[0]) == iv:
+					out = append(out, rhs)
+				case strings.Contains(rhs, "rpcClient(") || strings.Contains(rhs, ".Go("):
+					out = append(out, show(s.Rhs[0].(*ast.CallExpr).Fun))
+				case strings.Contains(rhs, "rpcClients"):
+					out = append(out, rhs)
+				}
+			case *ast.ExprStmt:
+				if strings.Contains(show(s), "rpcClients") && !strings.Contains(show(s), "Mu.") {
+					out = append(out, show(s))
+				}
+			case *ast.DeclStmt:
+			}
+		}
+	}
+	out = append(out, "for "+show(loop.Init)+"; "+show(loop.Cond)+"; "+show(loop.Post)+" {")
+	walk(loop.Body.List)
+	out = append(out, "}")
+	walk(fd.Body.List[loopIdx+1:])
+	return out
+}
+
 func main() {
 	repo := flag.String("repo", "/repo", "repository working tree")
 	out := flag.String("out", "", "output directory for generated Lean files")
@@ -292,6 +424,56 @@ func main() {
 	if len(joins) == 0 {
 		die("no filepath.Join(…USERCOLSDIR…) found")
 	}
+	// ------------------------------------------------------------------ shared state of a node
+	// the fields of struct ClusterNode (everything requests of different tenants can share), and which
+	// of them / which methods the collection-level actions reach through their receiver
+	var nodeFields []string
+	ast.Inspect(cn, func(x ast.Node) bool {
+		ts, ok := x.(*ast.TypeSpec)
+		if !ok || ts.Name.Name != "ClusterNode" {
+			return true
+		}
+		if st, ok := ts.Type.(*ast.StructType); ok {
+			for _, f := range st.Fields.List {
+				for _, n := range f.Names {
+					nodeFields = append(nodeFields, n.Name+" "+show(f.Type))
+				}
+				if len(f.Names) == 0 {
+					nodeFields = append(nodeFields, "embedded "+show(f.Type))
+				}
+			}
+		}
+		return false
+	})
+	if len(nodeFields) == 0 {
+		die("struct ClusterNode not found in cluster/clusternode.go")
+	}
+	recvUse := func(name string) string {
+		fd := funcDecl(act, "ClusterNode", name)
+		if fd == nil || fd.Recv == nil || len(fd.Recv.List) != 1 || len(fd.Recv.List[0].Names) != 1 {
+			die("ClusterNode.%s not found in cluster/actions.go", name)
+		}
+		recv := fd.Recv.List[0].Names[0].Name
+		seen := map[string]bool{}
+		ast.Inspect(fd, func(x ast.Node) bool {
+			if se, ok := x.(*ast.SelectorExpr); ok {
+				if id, ok := se.X.(*ast.Ident); ok && id.Name == recv {
+					seen[se.Sel.Name] = true
+				}
+			}
+			return true
+		})
+		var l []string
+		for k := range seen {
+			l = append(l, k)
+		}
+		sort.Strings(l)
+		return name + ": " + strings.Join(l, ",")
+	}
+	var actionUses []string
+	for _, n := range []string{"CreateCollection", "ListCollections", "GetCollection", "DeleteCollection"} {
+		actionUses = append(actionUses, recvUse(n))
+	}
 	// ------------------------------------------------------------------ collection id validation
 	type lim struct {
 		lo, hi       int
@@ -370,6 +552,10 @@ func main() {
 	fmt.Fprintf(&b, "def mwRefusedIds : List String := %s\n", leanStrs(refusedEq))
 	b.WriteString("/-- characters of `strings.ContainsAny(UserId, …)` in the header middleware -/\n")
 	fmt.Fprintf(&b, "def mwRefusedChars : List String := %s\n", leanStrs(refusedChars))
+	b.WriteString("/-- the fields of struct ClusterNode (name and type): all the state requests of different tenants share inside a node -/\n")
+	fmt.Fprintf(&b, "def nodeFields : List String := %s\n", leanStrs(nodeFields))
+	b.WriteString("/-- what the collection-level actions of cluster/actions.go reach through their receiver -/\n")
+	fmt.Fprintf(&b, "def actionUses : List String := %s\n", leanStrs(actionUses))
 	b.WriteString("end Sema.Gen.FactsC16\n")
 	if err := os.WriteFile(filepath.Join(*out, "FactsC16.lean"), []byte(b.String()), 0o644); err != nil {
 		die("%v", err)
@@ -412,6 +598,13 @@ func main() {
 	if targetExpr == "" || offsetCond == "" || cutCond == "" || sortCmp == "" {
 		die("SearchPoints: could not find targetLimit (%q), offset rule (%q), cut (%q) or score comparison (%q)", targetExpr, offsetCond, cutCond, sortCmp)
 	}
+	// ------------------------------------------------------------------ C17: the retry loop of internalRoute
+	rp := parse(*repo, "cluster/rpc.go")
+	ir := funcDecl(rp, "ClusterNode", "internalRoute")
+	if ir == nil {
+		die("ClusterNode.internalRoute not found in cluster/rpc.go")
+	}
+	skeleton := routeSkeleton(ir)
 	af, _ := constant.Float64Val(av)
 	bf, _ := constant.Float64Val(bv)
 	var c strings.Builder
@@ -424,6 +617,8 @@ func main() {
 	fmt.Fprintf(&c, "def offsetAssign : String := %s\n", leanStr(offsetAssign))
 	fmt.Fprintf(&c, "def cutRule : String := %s\n", leanStr(cutCond))
 	fmt.Fprintf(&c, "def scoreCmp : String := %s\n", leanStr(sortCmp))
+	c.WriteString("/-- control skeleton of ClusterNode.internalRoute: the retry loop with everything that touches the loop\nvariable, retryErr, the client cache, or leaves the loop / the function -/\n")
+	fmt.Fprintf(&c, "def routeSkeleton : List String := %s\n", leanStrs(skeleton))
 	c.WriteString("end Sema.Gen.FactsC17\n")
 	if err := os.WriteFile(filepath.Join(*out, "FactsC17.lean"), []byte(c.String()), 0o644); err != nil {
 		die("%v", err)
